@@ -123,6 +123,16 @@ SNIPPETS = ["x_: uint8 = 256", "assert False", "raise", "for i_: uint256 in rang
             "x_: uint256 = 0\n    x_ += -1", "x_: uint256 = ~1", "x_: int8 = -(-128)", "x_: uint256 = 10**77 * 10", "x_: uint256 = shift(1, 2)"]
 
 
+def msg_class(msg):
+    """Stable class of an exception message: quoted parts and digits removed, first 40 chars, slugged.
+    (no line numbers, addresses or identifiers of the particular input)"""
+    m = re.sub(r"'[^']*'|\"[^\"]*\"|`[^`]*`", "_", msg or "")
+    m = m.split("\n")[0]
+    m = re.sub(r"0x[0-9a-fA-F]+|\d+", "", m)
+    m = re.sub(r"[^A-Za-z_]+", " ", m).strip()[:40].strip()
+    return m.replace(" ", "-") or "-"
+
+
 def tokens(src):
     return [m for m in re.finditer(r"[A-Za-z_]\w*|\d+\.\d+|0x[0-9a-fA-F]+|\d+|\*\*|//|<<|>>|[<>=!]=|->|\S", src)]
 
@@ -270,7 +280,7 @@ def part_outcomes(ctx, tmp):
                 stats["diag:" + o["exc"]] += 1
             if o["outcome"] == "INTERNAL":
                 f = o.get("frame", "?:?")
-                key = f"C20:{o['exc']}:{f}"
+                key = f"C20:{o['exc']}:{f}:{msg_class(o.get('msg'))}"
                 internal.setdefault(key, (it, name, o))
         if r["id"].startswith("base:") and any(o["outcome"] != "output" for o in outs):
             ctx.violation("correspondence-broken", "an unchanged corpus program does not compile", {"program": it["base"], "outcomes": outs})
@@ -281,7 +291,7 @@ def part_outcomes(ctx, tmp):
             good = [k for k, o in runs.items() if o["outcome"] == "output"]
             if bad and good:
                 k0, o0 = sorted(bad.items())[0]
-                key = f"C20:backend-disagree:{o0['exc']}:{o0.get('frame')}"
+                key = f"C20:backend-disagree:{o0['exc']}:{o0.get('frame')}:{msg_class(o0.get('msg'))}"
                 internal.setdefault(key, (it, k0, dict(o0, note=f"accepted by semantic analysis and compiled by {good}, rejected by {sorted(bad)}")))
     for key, (it, cfgname, o) in sorted(internal.items()):
         ctx.violation("failing-input", f"internal outcome {o['exc']} at {o.get('frame')} ({it['how']} of {it['base']})",
